@@ -2137,7 +2137,9 @@ func deletePrivateKeys(ns walletdb.ReadWriteBucket) error {
 					return managerError(ErrDatabase, str, err)
 				}
 
-			case adtWitnessScript:
+			case adtWitnessScript, adtTaprootScript:
+				// A taproot script address stores the same
+				// fields as a witness script address.
 				srow, err := deserializeWitnessScriptAddress(row)
 				if err != nil {
 					return err
